@@ -2721,6 +2721,28 @@ def _run_function_optimizer_pass(opt_pass: _OptimizerPass, graph: ir.Graph) -> N
     opt_pass.function_graph_runner(graph)
 
 
+def _inline_function_body_initializers(graph: ir.Graph) -> None:
+    """FunctionProto cannot carry initializers: constants that a rewrite pass
+    registered on a function body are turned into Constant nodes."""
+    for value in reversed(list(graph.initializers.values())):
+        tensor = value.const_value
+        if tensor is None or value.producer() is not None:
+            continue
+        graph.initializers.pop(value.name, None)
+        const_node = ir.Node(
+            "",
+            "Constant",
+            inputs=[],
+            attributes=[ir.AttrTensor("value", tensor)],
+            outputs=[value],
+        )
+        first_node = next(iter(graph), None)
+        if first_node is None:
+            graph.append(const_node)
+        else:
+            graph.insert_before(first_node, const_node)
+
+
 def optimize_graph(ir_model: ir.Model) -> ir.Model:
     _dbg("optimize_graph invoked")
     for opt_pass in _OPTIMIZER_PASSES:
@@ -2736,5 +2758,6 @@ def optimize_graph(ir_model: ir.Model) -> ir.Model:
         fgr = cast(ir.Graph, graph_obj)
         for opt_pass in _OPTIMIZER_PASSES:
             _run_function_optimizer_pass(opt_pass, fgr)
+        _inline_function_body_initializers(fgr)
 
     return ir_model
